@@ -58,6 +58,101 @@ def _expr(node):
     raise ExtractionError('expression outside the grammar: ' + _u(node))
 
 
+def _num(node):
+    if isinstance(node, ast.Constant) and isinstance(node.value, (int, float)) \
+            and not isinstance(node.value, bool):
+        q = Fraction(node.value)
+        return '(Expr.const ({}) {})'.format(q.numerator, q.denominator)
+    if isinstance(node, ast.UnaryOp) and isinstance(node.op, ast.USub):
+        inner = node.operand
+        if isinstance(inner, ast.Constant) and isinstance(inner.value, (int, float)):
+            q = -Fraction(inner.value)
+            return '(Expr.const ({}) {})'.format(q.numerator, q.denominator)
+    raise ExtractionError('not a number: ' + _u(node))
+
+
+def _is_dom_call(node, name=None):
+    """`<name>(self.domain)` -> name."""
+    if (isinstance(node, ast.Call) and isinstance(node.func, ast.Name) and len(node.args) == 1 and
+            _u(node.args[0]) == 'self.domain' and not node.keywords):
+        return node.func.id
+    return None
+
+
+def _fexpr(node):
+    """Functional-valued expressions of gradient_factory, read point-wise:
+    self | g(self.domain) | -F | NUM + F | g(self.domain) * F  (composition g o F)
+    | FunctionalQuotient(F, F) | ConstantFunctional(self.domain, NUM)
+    | ScalingFunctional(self.domain, NUM)"""
+    if isinstance(node, ast.Name) and node.id == 'self':
+        return 'Expr.self'
+    g = _is_dom_call(node)
+    if g is not None:
+        if g not in FNS:
+            raise ExtractionError('unknown ufunc functional ' + g)
+        return '(Expr.app Fn.{})'.format(g)
+    if isinstance(node, ast.UnaryOp) and isinstance(node.op, ast.USub):
+        return '(Expr.neg {})'.format(_fexpr(node.operand))
+    if isinstance(node, ast.BinOp) and isinstance(node.op, ast.Add):
+        return '(Expr.add {} {})'.format(_num(node.left), _fexpr(node.right))
+    if isinstance(node, ast.BinOp) and isinstance(node.op, ast.Mult):
+        g = _is_dom_call(node.left)
+        if g is None or g not in FNS:
+            raise ExtractionError('unsupported product ' + _u(node))
+        return '(Expr.comp Fn.{} {})'.format(g, _fexpr(node.right))
+    if isinstance(node, ast.Call) and isinstance(node.func, ast.Name) and not node.keywords:
+        f = node.func.id
+        if f == 'FunctionalQuotient' and len(node.args) == 2:
+            return '(Expr.div {} {})'.format(_fexpr(node.args[0]), _fexpr(node.args[1]))
+        if f == 'ConstantFunctional' and len(node.args) == 2 and _u(node.args[0]) == 'self.domain':
+            return _num(node.args[1])
+        if f == 'ScalingFunctional' and len(node.args) == 2 and _u(node.args[0]) == 'self.domain':
+            return '(Expr.mul {} Expr.pt)'.format(_num(node.args[1]))
+    raise ExtractionError('functional expression outside the grammar: ' + _u(node))
+
+
+def _inner_grad(fn):
+    if not (isinstance(fn, ast.FunctionDef) and fn.name == 'gradient' and
+            [a.arg for a in fn.args.args] == ['self']):
+        raise ExtractionError('unexpected inner definition ' + _u(fn)[:80])
+    body = list(fn.body)
+    if body and isinstance(body[0], ast.Expr) and isinstance(body[0].value, ast.Constant) \
+            and isinstance(body[0].value.value, str):
+        body = body[1:]
+    if len(body) != 1 or not isinstance(body[0], ast.Return):
+        raise ExtractionError('unexpected body of gradient: ' + _u(fn)[:200])
+    return _fexpr(body[0].value)
+
+
+def _chain(tree, facname, inner, fallbacks):
+    fac = [n for n in tree.body if isinstance(n, ast.FunctionDef) and n.name == facname]
+    if len(fac) != 1:
+        raise ExtractionError(facname + ' not found')
+    body = [s for s in fac[0].body if not (isinstance(s, ast.Expr) and isinstance(s.value, ast.Constant))]
+    if len(body) != 2 or not isinstance(body[0], ast.If) or not _u(body[1]).startswith('return '):
+        raise ExtractionError(facname + ' is not an if-chain followed by return')
+    table = []
+    node = body[0]
+    while True:
+        t = node.test
+        if not (isinstance(t, ast.Compare) and _u(t.left) == 'name' and len(t.ops) == 1 and
+                isinstance(t.ops[0], ast.Eq) and isinstance(t.comparators[0], ast.Constant)):
+            raise ExtractionError('unexpected test ' + _u(t))
+        name = t.comparators[0].value
+        if name not in FNS:
+            raise ExtractionError('ufunc {!r} has a branch but no Lean counterpart'.format(name))
+        if len(node.body) != 1:
+            raise ExtractionError('unexpected branch body for ' + name)
+        table.append((name, inner(node.body[0])))
+        if len(node.orelse) == 1 and isinstance(node.orelse[0], ast.If):
+            node = node.orelse[0]
+            continue
+        if len(node.orelse) != 1 or _u(node.orelse[0]) not in fallbacks:
+            raise ExtractionError('unexpected fallback: ' + ' ; '.join(_u(s) for s in node.orelse))
+        break
+    return table
+
+
 def _inner(fn):
     if not (isinstance(fn, ast.FunctionDef) and fn.name == 'derivative' and
             [a.arg for a in fn.args.args] == ['self', 'point']):
@@ -81,31 +176,9 @@ def extract(repo=core.REPO):
     path = os.path.join(repo, 'odl', 'ufunc_ops', 'ufunc_ops.py')
     with open(path) as f:
         tree = ast.parse(f.read())
-    fac = [n for n in tree.body if isinstance(n, ast.FunctionDef) and n.name == 'derivative_factory']
-    if len(fac) != 1:
-        raise ExtractionError('derivative_factory not found')
-    body = [s for s in fac[0].body if not (isinstance(s, ast.Expr) and isinstance(s.value, ast.Constant))]
-    if len(body) != 2 or not isinstance(body[0], ast.If) or _u(body[1]) != 'return derivative':
-        raise ExtractionError('derivative_factory is not an if-chain followed by return')
-    table = []
-    node = body[0]
-    while True:
-        t = node.test
-        if not (isinstance(t, ast.Compare) and _u(t.left) == 'name' and len(t.ops) == 1 and
-                isinstance(t.ops[0], ast.Eq) and isinstance(t.comparators[0], ast.Constant)):
-            raise ExtractionError('unexpected test ' + _u(t))
-        name = t.comparators[0].value
-        if name not in FNS:
-            raise ExtractionError('ufunc {!r} has a derivative branch but no Lean counterpart'.format(name))
-        if len(node.body) != 1:
-            raise ExtractionError('unexpected branch body for ' + name)
-        table.append((name, _inner(node.body[0])))
-        if len(node.orelse) == 1 and isinstance(node.orelse[0], ast.If):
-            node = node.orelse[0]
-            continue
-        if len(node.orelse) != 1 or _u(node.orelse[0]) != 'derivative = Operator.derivative':
-            raise ExtractionError('unexpected fallback: ' + ' ; '.join(_u(s) for s in node.orelse))
-        break
+    table = _chain(tree, 'derivative_factory', _inner, ['derivative = Operator.derivative'])
+    gtable = _chain(tree, 'gradient_factory', _inner_grad,
+                    ['gradient = Functional.gradient.fget', 'gradient = Functional.gradient'])
     lin = [n for n in tree.body if isinstance(n, ast.Assign) and _u(n.targets[0]) == 'LINEAR_UFUNCS']
     if len(lin) != 1:
         raise ExtractionError('LINEAR_UFUNCS not found')
@@ -118,6 +191,12 @@ def extract(repo=core.REPO):
            '/-- `derivative_factory`: ufunc name ↦ multiplicand of the returned `MultiplyOperator`. -/',
            'def table : List (Fn × Expr) := [']
     out.append(',\n'.join('  (Fn.{}, {})'.format(n, e) for n, e in table))
+    out.append(']')
+    out.append('')
+    out.append('/-- `gradient_factory` (ufunc FUNCTIONALS on a field): ufunc name ↦ the gradient functional, '
+               'read point-wise. -/')
+    out.append('def gradTable : List (Fn × Expr) := [')
+    out.append(',\n'.join('  (Fn.{}, {})'.format(n, e) for n, e in gtable))
     out.append(']')
     out.append('')
     out.append('/-- `LINEAR_UFUNCS` (flagged linear, derivative = self through `Operator.derivative`). -/')
